@@ -48,6 +48,14 @@ _dir = [None]
 OPS = ["open", "open", "close", "sel", "sel", "ins", "ins", "begin", "commit", "rollback", "bad"]
 
 
+
+def _workdir():
+    """one directory per worker process: SQLite creates and deletes journal files all the time, and sixteen workers doing that in one
+    tmpfs directory serialise on it"""
+    d = os.path.join(_dir[0], "p%d" % os.getpid())
+    os.makedirs(d, exist_ok=True)
+    return d
+
 def setup():
     from sqlalchemy import create_engine, text, exc, event, pool
     import sqlalchemy.pool.base as pbase
@@ -126,7 +134,7 @@ def run_case(case):
     create_engine, text, exc, event, pool = _m["create_engine"], _m["text"], _m["exc"], _m["event"], _m["pool"]
     pbase = _m["pbase"]
     cfg = case["cfg"]
-    path = os.path.join(_dir[0], "t%d.db" % os.getpid())
+    path = os.path.join(_workdir(), "t.db")
     for suffix in ("", "-journal"):
         try:
             os.unlink(path + suffix)
